@@ -11,7 +11,7 @@ struct Run {
     int cycles;
     int nframes[3];
     int grouping[3];   // bitmask: bit i set = packet boundary after frame i (i < n-1)
-    int uri[3];        // 0 absolute plain, 1 file:// + absolute, 2 short relative name (< 7 chars)
+    int uri[3];        // 0 absolute plain, 1 file:// + absolute, 2 short relative name (< 7 chars), 3 (cycles > 0) no set: restart with the previous settings
     std::vector<int> plan;
 };
 static std::string run_str(const Run& r)
@@ -50,18 +50,24 @@ static Result execute(const Run& r, bool verbose)
     if (!dev) { res.ok = false; res.clause = "open-failed"; res.detail = "storage_open(raw) returned NULL"; return res; }
     char m[400];
     for (int c = 0; c < r.cycles && res.ok; ++c) {
-        std::string path = g_scratch + "/cyc" + std::to_string(c) + ".raw";
-        std::string uri = path;
-        if (r.uri[c] == 1) uri = "file://" + path;
-        if (r.uri[c] == 2) { path = g_scratch + "/f" + std::to_string(c); uri = "f" + std::to_string(c); } // cwd is the scratch directory
-        unlink(path.c_str());
-        struct StorageProperties props; memset(&props, 0, sizeof props);
-        struct PixelScale ps = { 1, 1 };
-        storage_properties_init(&props, 0, uri.c_str(), uri.size() + 1, nullptr, 0, ps, 0);
         enum DeviceStatusCode rc;
-        DEV(rc = storage_set(dev, &props));
-        storage_properties_destroy(&props);
-        if (rc != Device_Ok) { res.ok = false; res.clause = "set-failed"; snprintf(m, sizeof m, "cycle %d: storage_set(uri=%s) failed", c, uri.c_str()); res.detail = m; break; }
+        static std::string path;
+        if (c > 0 && r.uri[c] == 3) {
+            // restart without a new set: same settings, same path; the previous file has been moved away by the client
+            unlink(path.c_str());
+        } else {
+            path = g_scratch + "/cyc" + std::to_string(c) + ".raw";
+            std::string uri = path;
+            if (r.uri[c] == 1) uri = "file://" + path;
+            if (r.uri[c] == 2) { path = g_scratch + "/f" + std::to_string(c); uri = "f" + std::to_string(c); } // cwd is the scratch directory
+            unlink(path.c_str());
+            struct StorageProperties props; memset(&props, 0, sizeof props);
+            struct PixelScale ps = { 1, 1 };
+            storage_properties_init(&props, 0, uri.c_str(), uri.size() + 1, nullptr, 0, ps, 0);
+            DEV(rc = storage_set(dev, &props));
+            storage_properties_destroy(&props);
+            if (rc != Device_Ok) { res.ok = false; res.clause = "set-failed"; snprintf(m, sizeof m, "cycle %d: storage_set(uri=%s) failed", c, uri.c_str()); res.detail = m; break; }
+        }
         DEV(rc = storage_start(dev));
         if (rc != Device_Ok) { res.ok = false; res.clause = "start-failed"; snprintf(m, sizeof m, "cycle %d: storage_start failed", c); res.detail = m; break; }
         foreign_shuffle();
@@ -144,7 +150,7 @@ int main(int argc, char** argv)
                     Run r; r.cycles = cycles;
                     for (int c = 0; c < 3; ++c) { r.nframes[c] = nf[c]; r.grouping[c] = g[c]; r.uri[c] = u[c]; }
                     bases.push_back(r);
-                    int c = 0; while (c < cycles) { if (++u[c] < 3) break; u[c] = 0; ++c; }
+                    int c = 0; while (c < cycles) { if (++u[c] < (c == 0 ? 3 : 4)) break; u[c] = 0; ++c; }
                     if (c == cycles) break;
                 }
                 int c = 0; while (c < cycles) { if (++g[c] < (1 << (nf[c] - 1))) break; g[c] = 0; ++c; }
